@@ -11,7 +11,9 @@
      WfSend(f)  write_flash transmits the write command; the environment chooses the fate f:
                 "ok" written + positive reply, "okdup" the same with the reply duplicated,
                 "nack" refused by the target (negative reply, nothing written),
-                "lostcmd" command lost, "lostreply" written but the reply is lost
+                "lostcmd" command lost, "lostreply" written but the reply is lost,
+                "stray" command lost and an unrelated packet (the other target's positive
+                write reply) arrives instead of an answer
      WfRecv     `receive_packet(2.5)` returns a packet or None; `retry_counter -= 1`; loop exit,
                 status check, and what _internal_flash does with the result
      Return     the call returns / raises
@@ -69,6 +71,7 @@ Enc16(x) == <<x % 256, (x \div 256) % 256>>
 LoadMsg(page, a, from, n) == <<tgt, 20>> \o Enc16(page) \o Enc16(a) \o SubSeq(img, from, from + n - 1)
 WriteMsg(b, p, c)         == <<tgt, 24>> \o Enc16(b) \o Enc16(p) \o Enc16(c)
 Reply(done, err)          == <<tgt, 24, done, err>>
+OtherTgt                  == IF tgt = 255 THEN 254 ELSE 255
 NackErr == 2
 
 Obs(x) == IF Observe THEN x ELSE h
@@ -180,8 +183,9 @@ WfSend(f) ==
           /\ rxq' = CASE f = "ok" -> Append(rxq, Reply(1, 0))
                       [] f = "okdup" -> rxq \o <<Reply(1, 0), Reply(1, 0)>>
                       [] f = "nack" -> Append(rxq, Reply(0, NackErr))
+                      [] f = "stray" -> Append(rxq, <<OtherTgt, 24, 1, 0>>)
                       [] OTHER -> rxq
-          /\ h' = Obs(P!ObsTx(h, G, img, m, f # "lostcmd"))
+          /\ h' = Obs(P!ObsTx(h, G, img, m, f \notin {"lostcmd", "stray"}))
     /\ pc' = "wait"
     /\ UNCHANGED <<cfgvars, ldvars, buf>>
 
@@ -192,6 +196,7 @@ WfRecv ==
            valid == got /\ Len(pk) >= 2 /\ pk[1] = tgt /\ pk[2] = 24
            r == retry - 1
            success == CASE Bug = "continue" -> TRUE
+                        [] Bug = "last_any" -> got /\ pk[3] = 1 /\ (valid \/ r < 0)
                         [] Bug = "ignore_status" -> valid /\ r >= 0
                         [] OTHER -> valid /\ r >= 0 /\ pk[3] = 1
        IN /\ rxq' = IF got THEN Tail(rxq) ELSE rxq
